@@ -1,5 +1,6 @@
 import Tengo.Props.C07
 import Tengo.Props.C07VM
+import Tengo.Props.C07VMCompiled
 /-! C07: the protocol theorems over `Model/Conc` (`C07`) and cancellation on the whole-VM model together with
-the protocol theorems instantiated with the behaviour of a VM configuration (`C07VM`) — as one module for the
-checker. -/
+the protocol theorems instantiated with the behaviour of a VM configuration (`C07VM`), and the two looping programs compiled from source and started from
+`VM.initCore` (`C07VMCompiled`) — as one module for the checker. -/
